@@ -5,13 +5,17 @@ P = {'id': 'C14',
               'memchr_is_first_index',
               'simd_compare_is_scalar',
               'compare_sign_is_lexicographic',
+              'copy_windows_is_copy',
               'crc_table_is_polynomial',
               'crc_hardware_is_polynomial',
               'crc_incremental',
               'hex_decode_encode',
               'hex_lengths',
               'b64_decode_encode',
-              'b64_encoded_length'],
+              'b64_encoded_length',
+              'utf8_dfa_correct',
+              'utf8_simd_is_scalar',
+              'utf8_count_is_chars'],
  'trusted': ['the vector intrinsics themselves are not modelled: a W-lane compare + movemask + trailing_zeros is taken to be "first differing / matching lane", '
              'CRC32 r32, r/m is taken to be 8k steps of the bit-serial division, PCMPESTRI and PDEP/PEXT/BZHI are covered by the differential oracle only',
              'tiers below the native one are reached through the repo hook ZIPORA_VERIF_DISABLE (masks detected CPU features, add-only, cfg(zipora_verif)); '
